@@ -18,6 +18,11 @@ CHECKS = {
    technique="TLA+ spec Schedule (operator words of WHFast/SABA/EOS/MERCURIUS/JANUS/LEAPFROG/SEI + synchronisation flag machine) checked by TLC; inner words emitted by TLC and compared with executed ones; hook traces of call sequences validated against Trace_Schedule",
    text="TLC checks Schedule exhaustively for all 285 valid option combinations (WHFast coordinates x kernels x correctors x corrector2 x safe_mode x keep_unsynchronized x variational, 18 SABA types, 9 EOS splittings, MERCURIUS, JANUS orders, LEAPFROG, SEI) and every call sequence over step / synchronize / observe / set-recalculate up to depth 6: every unit of drift is matched by a unit of kick and centre-of-mass motion (Balanced), completing the deferred half step gives after merging exactly the safe-mode word (UnsafeEqualsSafe), correctors and processors bracket each synchronisation window exactly once, safe words of uncorrected schemes are palindromes, synchronising a synchronised state and observing execute nothing, keep_unsynchronized leaves the word untouched; correctors are drift/kick neutral and EOS inner schemes balanced. Binding: for configurations drawn from TLC's enumeration (quick ~65, thorough all) random call sequences and three-run bitwise traces are executed on real simulations; the words recorded by sub-step hooks (coefficients at 1e-8 dt), is_synchronized, and SHA-256 ids of internal coordinates and particles are validated by TLC against Trace_Schedule (word equality per call; keep-unsynchronised transparency; sync twice = once; observers inert; state after k steps independent of outputs requested in between); ~3000 executed inner words (5 corrector orders, corrector2, EOS shell-1 schemes x n, processors, SABA correctors) are compared with TLC's tables.",
    note="Coefficient tables were transcribed once from the pinned sources and are validated algebraically by TLC; 'same trajectory up to rounding / truncation' is a sampled A5 clause (40 steps, one system); WHFast512 and TRACE are not hooked; modifying particles while unsynchronised is outside the contract."),
+ "C13": dict(
+   category="model_checking", design_ref="DESIGN.md 4/C13",
+   technique="TLA+ spec Collisions (resolve loop with index fix-ups, all list orders and resolver answers) checked by TLC; CollisionGeom lattice oracle for detection; hook traces of real searches validated against Trace_Collisions",
+   text="TLC checks the resolve loop of reb_collision_search (pending list, removal sorted / swap-with-last / deferred in a tree, index fix-ups) for every overlap graph with <=2-3 edges on <=4-5 particles, every orientation set the direct / line / tree searches can produce, every permutation of the list and every resolver answer 0..3, plus the built-in merge policy: pending entries keep naming the identities they were found with, no collision between survivors is dropped, the array holds exactly the survivors (order kept when requested), nobody is resolved after removal, nobody merges twice per step. Detection: TLC classifies 20088 two-sphere integer configurations in periodic boxes (cubic with ghost ring in x,y; non-cubic root-box layouts with ghost ring in x,y,z) as Required / Boundary for the point and the line criterion; every configuration (quick: every 7th of the cubic family + all non-cubic) is run through direct, tree, line and linetree searches: Required => reported => Required or Boundary. Binding of the loop: 400 (quick) / 4000 (thorough) real reb_collision_search calls on clusters (chains, triangles, stars, squares, nested index pairs, disjoint pairs, bystanders) x 4 search modes x keep_sorted x random shuffle seeds with Python resolvers answering randomly, the built-in merge resolver on a 1/8 lattice (exact mass, momentum, mass-moment totals) and the hard-sphere resolver (momentum/energy 1e-11, last pair separating) are recorded through hooks (list after shuffle, each resolver call, list and particle identities after each fix-up) and validated by TLC against Trace_Collisions with all invariants.",
+   note="Touching spheres and zero approach speed are don't-care; keep_sorted removal with a tree is refused by the library with an error and is not exercised with the merge resolver; merging across a periodic image is not exercised; hard-sphere energy/momentum is a sampled A5 clause."),
  "C06": dict(
    category="model_checking", design_ref="DESIGN.md 4/C06",
    technique="TLA+ specs ArchiveDelta (delta encoder/loader) and Cadence (auto-snapshot protocol) checked by TLC; real archive histories validated against Trace_ArchiveDelta; TLC-simulated Cadence behaviours replayed into the library",
